@@ -494,5 +494,22 @@ def run(chk, prog):
     from . import dimrules
     nrd = dimrules.run(chk, prog, "RD")
     chk.floor("RD-requirements", nrd or 0, 3)
+    # ---- R7: "exactly the requested number of samples": once constructed with n samples an impedance keeps n samples --------------------------
+    # every member (not a constructor) that can change the length of the sample vector - growing it included - must not be reachable
+    # from outside the class: the factory sums contributions with operator+= and hands the result to the field, which reads nFreqs() of them
+    from .common import length_changing_members, external_callers
+    imp_cls = {"vfps::Impedance"} | prog.subclasses("vfps::Impedance")
+    ch7 = length_changing_members(prog, imp_cls, "_data")
+    n7 = 0
+    for sig, (why, grow_only) in sorted(ch7.items()):
+        fq = prog.functions[sig]
+        chk.used(fq)
+        sites = external_callers(prog, sig, imp_cls)
+        n7 += 1
+        chk.check(not sites, "R7", sites[0] if sites else fq.where,
+                  "%s can change the number of samples of a constructed impedance (%s): it has no caller outside the class%s"
+                  % (fq["qname"].replace("vfps::", ""), why, "" if not sites else " -- called at %s: the result no longer has the requested number of samples" % sites[:6]),
+                  "%s:changes-sample-count" % fq["qname"].replace("vfps::", ""))
+    chk.floor("R7-length-changing-members", n7, 2)
     chk.notes.append("C16: sample counts and zero upper half by a symbolic model of the vector operations, passivity and side by a sign lattice over "
                      "real/imaginary parts, homogeneity exponents, factory pairing. NOT decided: asymptotic limits of the parallel-plates model.")
